@@ -6,6 +6,7 @@ import (
 
 	"google.golang.org/grpc/codes"
 	"google.golang.org/grpc/status"
+	"google.golang.org/protobuf/proto"
 
 	"github.com/smart-core-os/sc-api/go/traits"
 	"github.com/smart-core-os/sc-api/go/types"
@@ -52,6 +53,10 @@ func (m *Collection) DeleteMetadata(name string, opts ...resource.WriteOption) (
 // Traits that exist in the given metadata are merged with existing traits, so that each trait appears only once and
 // the 'more' maps are merged.
 func (m *Collection) MergeMetadata(name string, metadata *traits.Metadata, opts ...resource.WriteOption) (*traits.Metadata, error) {
+	if metadata != nil {
+		// the merge interceptor works on the message being written, in place: that is a copy, not the caller's
+		metadata = proto.Clone(metadata).(*traits.Metadata)
+	}
 	newOpts := make([]resource.WriteOption, 1, len(opts)+1)
 	newOpts[0] = resource.InterceptBefore(metadataMergeInterceptor)
 	newOpts = append(newOpts, opts...)
